@@ -146,8 +146,55 @@ def with_lock_attr(w: ast.With, recv="self"):
         e = it.context_expr
         if isinstance(e, ast.Attribute) and isinstance(e.value, ast.Name) and e.value.id == recv:
             out.append(e.attr)
+    out.extend(_ordered_pair_lock_attrs(w, recv))
     out.extend(_cm_lock_attrs(w, recv))
     out.extend(_cm_class_lock_attrs(w, recv))
+    return out
+
+
+def _ordered_pair_lock_attrs(w: ast.With, recv="self"):
+    """`first, second = (self, other) if id(self) <= id(other) else (other, self)` … `with first.L, second.L:` (the
+    lock-ordering idiom for two instances): whichever way the test goes, the with statement holds `<recv>.L` — provided it
+    takes L on *every* name of the unpacked pair and <recv> is a member of the pair on both alternatives"""
+    by_attr = {}
+    for it in w.items:
+        e = it.context_expr
+        if isinstance(e, ast.Attribute) and isinstance(e.value, ast.Name) and e.value.id != recv:
+            by_attr.setdefault(e.attr, set()).add(e.value.id)
+    if not by_attr:
+        return []
+    fn = parent(w)
+    while fn is not None and not isinstance(fn, (ast.FunctionDef, ast.AsyncFunctionDef)):
+        fn = parent(fn)
+    if fn is None:
+        return []
+    out = []
+    for attr, names in by_attr.items():
+        for st in ast.walk(fn):
+            if not (isinstance(st, ast.Assign) and len(st.targets) == 1 and isinstance(st.targets[0], ast.Tuple)):
+                continue
+            tn = [t.id for t in st.targets[0].elts if isinstance(t, ast.Name)]
+            if len(tn) != len(st.targets[0].elts) or set(tn) != names:
+                continue
+            # the only binding of these names in the function
+            if sum(1 for y in ast.walk(fn) if isinstance(y, ast.Name) and isinstance(y.ctx, ast.Store) and y.id in names) != len(tn):
+                continue
+            v = st.value
+            alts = []
+            if isinstance(v, ast.IfExp):
+                alts = [v.body, v.orelse]
+            elif isinstance(v, ast.Call) and isinstance(v.func, ast.Name) and v.func.id == "sorted" and v.args:
+                alts = [v.args[0]]
+            elif isinstance(v, ast.Tuple):
+                alts = [v]
+            ok = bool(alts)
+            for a in alts:
+                if not (isinstance(a, (ast.Tuple, ast.List)) and len(a.elts) == len(tn) and all(isinstance(x, ast.Name) for x in a.elts)
+                        and any(x.id == recv for x in a.elts)):
+                    ok = False
+            if ok:
+                out.append(attr)
+                break
     return out
 
 
